@@ -286,6 +286,10 @@ pub const OBF_CLASSES: &[&str] = &[
     "b.a", "A", "a$b", "a$a$a", "c", "a.a.a.b.c$a", "aa", "a-b", "a1", "z.y.x",
     // U+1D49C (supplementary plane) vs U+FF21 (high BMP): UTF-8 byte order and UTF-16 code-unit order disagree
     "a\u{1D49C}", "a\u{FF21}",
+    // a keyword obfuscation dictionary yields names that are primitive type keywords
+    "int",
+    "void",
+    "boolean",
 ];
 
 pub fn long_name(seed: usize, len: usize) -> String {
@@ -339,6 +343,10 @@ pub const ARGS: &[&str] = &[
     // mixed spelling with and without blanks: "int, long" < "int,byte" raw, but > once blanks are stripped
     "int, long",
     "int,byte",
+    // parameter types that are classes of the mapping itself
+    "com.example.Main",
+    "com.example.Main$Inner,int",
+    "com.example.util.Helper[]",
 ];
 
 pub const RET_TYPES: &[&str] =
